@@ -12,7 +12,11 @@ from lib import vlib, deccheck, clicheck
 
 # "call differs": the printed operands are validated against the machine and so are the delivered ones; a delivered call that
 # differs from the machine's is therefore a printed value that is not the delivered value (e.g. arc flags with reserved bits)
-KINDS = {"listing bytes", "listing values", "listing text", "listing has extra lines", "outcome differs", "call differs"}
+# "unexpected call" / "missing call": the listing is validated line group by line group against the machine, so a call
+# delivered beyond (or missing from) the machine's is an operation without a line (a line without an operation): "one
+# instruction line per delivered operation" (e.g. a close delivered at the end of an input that stops inside a path)
+KINDS = {"listing bytes", "listing values", "listing text", "listing has extra lines", "outcome differs", "call differs",
+         "unexpected call", "missing call"}
 
 
 def run(ctx):
